@@ -1513,3 +1513,44 @@ pub fn reset_state_realloc_1_0() {
 pub fn reset_state_fill_1_1() {
     reset_equiv::<1, 1, 1, 0, 1536, true>()
 }
+
+/// C16(c): once the declared size is reached, a further process_stream call (what Stream::write
+/// does in the data state) consumes nothing and leaves output, coder state and carry untouched.
+fn partial_size_reached<const R: usize>() {
+    let mut t = Tape::<64>::new();
+    let input: [u8; R] = t.bytes::<R>();
+    let range = t.u32();
+    let code = t.u32();
+    let produced = (t.u16() as usize) & 0xFF;
+    let size = t.u64();
+    assume(size <= produced as u64);
+    let mut d = light_state::<0>(LzmaProperties { lc: 0, lp: 0, pb: 0 }, Some(size));
+    set_script(&mut d, [script(1, K_LIT), script(2, K_LIT), script(1, K_LIT), script(1, K_LIT)]);
+    let mut rd = ArrReader::<R>::new(input, R);
+    let mut win = SeqWindow::<4>::new(produced);
+    let (ok, r_range, r_code) = {
+        let mut rc = RangeDecoder::from_parts(&mut rd, range, code);
+        let r = d.process_stream(&mut win, &mut rc);
+        let ok = r.is_ok();
+        forget(r);
+        (ok, rc.range, rc.code)
+    };
+    vassert!(ok, "size reached: a further streaming call succeeds");
+    vassert!(rd.pos == 0, "size reached: further input is not consumed");
+    vassert!(win.n == 0, "size reached: nothing more is produced");
+    vassert!(r_range == range && r_code == code, "size reached: coder state untouched");
+    vassert!(d.partial_input_buf.position() == 0, "size reached: nothing is stashed");
+    vcover!(size == produced as u64, "exactly_reached");
+    vcover!(true, "end_reached");
+    forget(d);
+}
+
+//@ harness props=C16,C08,C11 tier=quick unwind=8 unwindset=process_mode:4 mem_gb=4 timeout=600 native=no
+//@ bound: process_stream with the declared size already reached (any size <= produced), 6 symbolic input bytes, abstract symbols
+#[cfg_attr(kani, kani::proof)]
+#[cfg_attr(kani, kani::stub(std::fmt::format, crate::verif_common::stub_format))]
+#[cfg_attr(kani, kani::stub(std::io::Error::is_interrupted, crate::verif_common::stub_not_interrupted))]
+#[cfg_attr(kani, kani::stub(crate::decode::lzma::DecoderState::process_next_inner, crate::decode::lzma::verif_h::abs_symbol))]
+pub fn partial_size_reached_r6() {
+    partial_size_reached::<6>()
+}
